@@ -1,22 +1,20 @@
 """C14 -- splitting or repeating compute calls never changes the result.
 
 H1  continuation: Tempo / MeanFieldTempo / PtTebd, symbolic targets e1,e2,e3 in 0..N in any
-    order (+ interleaved get_dynamics) == one call with max(e_i).
+    order (+ interleaved get_dynamics/get_results) == one call with max(e_i).
 H2  transient failure of a user callable at a symbolic call index, then the same compute
-    again: same dynamics as without the failure, or the call fails again.
+    again: same dynamics as without the failure, or the call fails again.  (Tempo,
+    MeanFieldTempo.  PtTebd.compute_step evaluates no user callable: gates are computed once
+    in initialize(), controls and process tensors are arrays -- nothing to inject.)
 H3  fixed-end methods: PtTempo.compute()/get_process_tensor() and GibbsTempo.compute()
     repeated: no exception, same tensors / state.
 H4  PtTebd restarted from get_augmented_mps() + start_step == uninterrupted run.
 """
 import numpy as np
 
-import oqupy
-import oqupy.process_tensor as ptm
-
 from vf.core import Case, Ob
-from vf import lib
+from vf import env, lib
 from vf import histories as hs
-from vf.sym import S, SI
 
 # sat-side instance search only (never decides "holds"; every model is replayed on the real code)
 hs.install_int_aware_search()
@@ -33,12 +31,12 @@ ASSUMPTIONS = [
     "conjugation-free contraction code is a polynomial map: identity over real symbols implies identity over complex values",
 ]
 
-_TEMPO_ENV = dict(noconj=True)
-
-
 def _tempo_env(N):
     extra = {}
     extra.update(hs.step_shadows("oqupy.tempo", -1, N + 1, ("int", "float", "max", "complex")))
+    # the step count lives in oqupy.util.count_time_steps (int(np.floor(...))) on repaired trees
+    extra.update(hs.step_shadows("oqupy.util", -1, N + 1, ("int",)))
+    extra["oqupy.util.np"] = env.NpProxy()
     extra.update(hs.step_shadows("oqupy.dynamics", -1, N + 1, ("float", "complex")))
     return {"noconj": True, "extra": extra}
 
@@ -153,6 +151,7 @@ class H1MeanField(Case):
         obj = hs.make_mean_field_tempo(d, K, rho0, infl, A1, B1, A2, t0, dt, f0, eom)
         for e in es:
             obj.compute(hs.as_time(start, e, dt), progress_type="silent")
+            obj.get_dynamics()
         ref = hs.make_mean_field_tempo(d, K, rho0, infl, A1, B1, A2, t0, dt, f0, eom)
         ref.compute(hs.as_time(start, hs.sym_maximum(es), dt), progress_type="silent")
         g, r = hs.mf_lists(obj.get_dynamics()), hs.mf_lists(ref.get_dynamics())
@@ -206,6 +205,7 @@ class H1PtTebd(Case):
         obj = hs.make_pt_tebd(v0, hs.as_time(start, 0, dt), 0, dt, ctr)
         for e in es:
             obj.compute(e, progress_type="silent")
+            obj.get_results()
         ref = hs.make_pt_tebd(v0, hs.as_time(start, 0, dt), 0, dt, ctr)
         ref.compute(hs.sym_maximum(es), progress_type="silent")
         g, r = hs.tebd_lists(obj.get_results()), hs.tebd_lists(ref.get_results())
@@ -595,10 +595,10 @@ def cases(tier):
     cs += [H4RestartReal(2, 1), H4RestartReal(2, 1, controls=True), H4RestartReal(2, 1, controls="pre_at_r")]
     if tier == "thorough":
         cs += [H1Tempo(4, 2), H1Tempo(4, None, ncalls=2), H1Tempo(4, 1, tau_add=True), H1Tempo(5, 2, dt=1.0),
-               H1MeanField(3, None, ncalls=2), H1MeanField(4, 2, ncalls=2), H1PtTebd(5), H1PtTebdReal(3, sites=3, ptbond=2)]
+               H1MeanField(3, None, ncalls=2), H1MeanField(4, 2, ncalls=2), H1PtTebd(5), H1PtTebdReal(3, sites=2, ptbond=2), H1PtTebdReal(2, sites=3, chi=2, ptbond=2)]
         cs += [H2Tempo(4, 2), H2Tempo(3, None), H2Tempo(4, 1, pre=False), H2MeanField("before_network", 3, 1),
                H2MeanField("in_compute_field", 2, 1), H2MeanField("in_compute_field", 3, None, pre=False)]
-        cs += [H3PtTempo(q, 4, 2) for q in _PT_SEQS] + [H3PtTempo("compute_get_get", 5, 1)]
+        cs += [H3PtTempo(q, 4, 2) for q in _PT_SEQS] + [H3PtTempo("compute_get_get", 4, 1), H3PtTempo("get_twice", 4, None)]
         cs += [H3Gibbs(4, "sym"), H3Gibbs(5, "zero"), H3Gibbs(2, "sym", calls=3)]
         cs += [H4Restart(5, c) for c in _RESTART_CONTROLS]
         cs += [H4RestartReal(3, 2, sites=3, chi=2, ptbond=2, controls=True), H4RestartReal(3, 1, sites=3, chi=1, ptbond=2),
